@@ -3,21 +3,36 @@ Model of `cascade.executor.data_server.DataServer` (recv_loop, maybe_clean, send
 store_payload, the purge branch, the 4 s retry rule), the payload framing of
 `cascade.executor.comms` (`send_data` = Syn(command.idx, source daddress) + header + value;
 `Listener._recv_one` = always ack a Syn, drop an already-acked Syn, `recv_messages` stops
-draining at the first dropped frame) and the part of `cascade.shm.client` the data server uses
-(allocate → ConflictError when the key exists, get, purge → error when the key is unknown).
+draining at the first dropped frame), the part of `cascade.shm.client` / `cascade.shm.dataset.Manager`
+the data server uses (allocate → ConflictError when the key exists or is being written; get → error
+when the key is unknown or not yet closed; purge → `Manager.purge` swallows the KeyError of an unknown
+key and the server answers Ok, so `shm_client.purge` RETURNS NORMALLY), and the part of
+`cascade.executor.executor.Executor.recv_loop` that sits between the controller and the data server:
+`DatasetPublished` / `DatasetTransmitFailure` coming from the data server are forwarded to the
+controller, a `DatasetPurge` from the controller is dropped when the dataset is not in
+`Executor.datasets` and otherwise forwarded to the data server.
+
+Pool jobs are NOT atomic: `store_payload` has three stages (allocate · write + close · announce
+callback), `send_payload` two (validate + get · send_data + close).  Every stage can be hit by an
+environment fault: `Fault.fail` = the shm / socket call of that stage raises (allocate under memory
+pressure → TimeoutError / "capacity exceeded", a failing close, a failing local push) and the job
+reports DatasetTransmitFailure; `Fault.closeExc` = the `buf.close()` in the `finally` of
+`send_payload` raises, the exception escapes into the Future and `maybe_clean` reports it (and never
+stamps `awaiting_confirmation`, so that transfer is never retried).
 
 Identifiers: hosts are `Nat ≥ 1`, a host's data address is its id, the controller is `0`.
 Datasets and command indices are `Nat`; bytes and `deser_fun` are opaque `String`s.
 Time is in milliseconds (`grace = 4000`).
 
 Two layers:
-  * **micro steps** (`cleanAll`, `runAt`, `deliver`, `recvOne`, `inject`, `handleHead`, `retryOne`,
-    `advance`, `dropFrame`, `ctrlRecv`): the atomic actions of the main thread, of a pool thread
-    and of the network.  `MStep` is the transition relation; it allows any interleaving (this
-    is what real threads do).
+  * **micro steps** (`cleanAll`, `stepAt`, `deliver`, `recvOne`, `inject`, `handleHead`, `retryOne`,
+    `advance`, `dropFrame`, `ctrlRecv`, `execHandle`, `injectE`): the atomic actions of the main
+    thread, of a pool thread, of the executor and of the network.  `MStep` is the transition relation;
+    it allows any interleaving (this is what real threads do) and any fault.
   * **operations** (`Op`, `step`, `run`): what the correspondence check drives — one iteration
-    of the real `recv_loop` body (`tick`), one pool job (`job`), clock, network faults.  Every
-    operation is a composition of micro steps (`Props/C07.lean : Aux.step_mstar`).
+    of the real `recv_loop` body (`tick`), one pool job run to completion (`job`) or by one stage,
+    possibly with a fault (`jobstep`), one iteration of the executor's loop (`etick`), clock, network
+    faults.  Every operation is a composition of micro steps (`Aux.step_mstar`).
 
 `log` is a ghost trace (newest first) of what happened; the properties are stated on it.
 -/
@@ -50,10 +65,25 @@ def Key.ds : Key → Nat
   | .cmd c => c.ds
   | .pay p => p.ds
 
-/-- a `Future` of the pool: `result = none` = submitted, not yet run. -/
+/-- outcome of a finished pool job: `fut.result()` (a time stamp) or `fut.exception()` -/
+inductive Res
+  | ok (t : Nat)
+  | exc
+deriving DecidableEq, Repr
+
+/-- what the environment does to one stage of a pool job -/
+inductive Fault
+  | none
+  | fail        -- the shm / socket call of the stage raises; caught by the job, reported
+  | closeExc    -- `buf.close()` in the `finally` of send_payload raises; escapes into the Future
+deriving DecidableEq, Repr
+
+/-- a `Future` of the pool: `result = none` = not finished; `stage` = how far its job has got
+(store: 0 submitted, 1 allocated, 2 written and closed; send: 0 submitted, 1 buffer open). -/
 structure Fut where
   key : Key
-  result : Option Nat
+  stage : Nat
+  result : Option Res
 deriving DecidableEq, Repr
 
 inductive Msg
@@ -61,6 +91,13 @@ inductive Msg
   | pay (p : Payload)
   | ack (idx : Nat)
   | purge (ds : Nat)
+deriving DecidableEq, Repr
+
+/-- what arrives on the executor's message socket (as far as transfers are concerned) -/
+inductive EMsg
+  | pub (ds idx : Nat)     -- DatasetPublished(ds, origin = this host, transmit_idx = idx) from the data server
+  | fail                   -- DatasetTransmitFailure from the data server
+  | purge (ds : Nat)       -- DatasetPurge from the controller
 deriving DecidableEq, Repr
 
 /-- a multipart zmq message in flight -/
@@ -78,19 +115,26 @@ inductive Event
   | resubmit (h idx ds : Nat)              -- retry send job
   | sent (h : Nat) (c : Cmd) (value deser : String)
   | sendFail (h : Nat) (c : Cmd)           -- DatasetTransmitFailure from send_payload
-  | stored (h ds idx : Nat) (value deser : String)
-  | announced (h ds idx : Nat)             -- DatasetPublished(ds, origin=h, transmit_idx=idx)
+  | stored (h ds idx : Nat) (value deser : String)   -- buffer written and closed: the copy exists
+  | announced (h ds idx : Nat)             -- DatasetPublished(ds, origin=h, transmit_idx=idx) pushed to the executor
   | redundant (h ds idx : Nat)             -- ConflictError branch
+  | storeFail (h ds idx stage : Nat)       -- DatasetTransmitFailure from store_payload (which stage raised)
+  | futFail (h : Nat) (k : Key)            -- DatasetTransmitFailure from maybe_clean: the Future raised
   | ignored (h ds idx : Nat)               -- payload of a purged dataset discarded
   | ackRecv (h idx : Nat)
-  | purged (h ds inProgress : Nat)         -- shm purge; futures of `ds` then in progress
+  | purged (h ds inProgress : Nat)         -- shm purge request; futures of `ds` then in progress
   | ctrlGot (p : Payload)                  -- payload delivered to the controller
+  | ctrlPub (h ds idx : Nat)               -- the executor forwarded DatasetPublished to the controller
+  | ctrlFail (h : Nat)                     -- the executor forwarded DatasetTransmitFailure to the controller
+  | purgeFwd (h ds : Nat)                  -- the executor forwarded a DatasetPurge to workers and data server
+  | purgeDropped (h ds : Nat)              -- "unexpected purge": not in Executor.datasets
   | crashed (h : Nat) (why : Nat)          -- recv_loop raised (1 idx conflict, 2 command for purged ds,
-                                           --  3 retry while in progress, 4 shm purge error)
+                                           --  3 retry while in progress, 5 KeyError in the retry loop)
 deriving DecidableEq, Repr
 
 structure Host where
-  store : List (Nat × String × String) := []     -- shm: ds ↦ (bytes, deser_fun)
+  store : List (Nat × String × String) := []     -- shm, status in_memory: ds ↦ (bytes, deser_fun)
+  allocd : List Nat := []                        -- shm, status created: allocated, writer not closed
   awaiting : List (Nat × Cmd × Option Nat) := [] -- awaiting_confirmation (none = -1)
   acks : List Nat := []
   invalid : List Nat := []
@@ -99,6 +143,8 @@ structure Host where
   sock : List Frame := []                        -- frames in the PULL socket, not yet read
   inbox : List Msg := []                         -- result of recv_messages being processed
   crashed : Bool := false
+  published : List Nat := []                     -- Executor.datasets
+  mbox : List EMsg := []                         -- the executor's message socket
 deriving Repr
 
 structure World where
@@ -137,60 +183,96 @@ def World.emit (w : World) (e : Event) : World := { w with log := e :: w.log }
 def World.crash (w : World) (h why : Nat) : World :=
   (w.setHost h { w.hosts h with crashed := true }).emit (.crashed h why)
 
-/-! ### pool jobs -/
+/-- `callback(self.maddress, m)`: a local push to the executor's message socket, traced as `e`. -/
+def World.report (w : World) (h : Nat) (m : EMsg) (e : Event) : World :=
+  (w.setHost h { w.hosts h with mbox := (w.hosts h).mbox ++ [m] }).emit e
 
-/-- `send_payload(command)` on host `h`. -/
-def execSend (h : Nat) (c : Cmd) (w : World) : World :=
-  if c.target = h ∨ c.source ≠ h then w.emit (.sendFail h c) else
+/-! ### pool jobs, stage by stage -/
+
+/-- `send_payload(command)` on host `h`, first stage: validate the command, `shm_client.get`.
+Returns the world and whether the buffer is now open. -/
+def sendOpen (h : Nat) (c : Cmd) (flt : Fault) (w : World) : World × Bool :=
+  if c.target = h ∨ c.source ≠ h then (w.report h .fail (.sendFail h c), false) else
+  if flt = .fail then (w.report h .fail (.sendFail h c), false) else
   match lookup (w.hosts h).store c.ds with
-  | none => w.emit (.sendFail h c)
+  | none => (w.report h .fail (.sendFail h c), false)    -- unknown key, or allocated but not closed ("wait" until timeout)
+  | some _ => (w, true)
+
+/-- second stage: `send_data`, then `finally: buf.close()`. Returns the world and the Future's outcome. -/
+def sendData (h : Nat) (c : Cmd) (flt : Fault) (w : World) : World × Res :=
+  match lookup (w.hosts h).store c.ds with
+  | none => (w.report h .fail (.sendFail h c), .ok w.now)    -- not reachable: the purge waits for open buffers
   | some (b, f) =>
-    { w with net := w.net ++ [Frame.data c.daddr c.idx h ⟨h, c.idx, c.ds, f, b⟩] }.emit (.sent h c b f)
+    if flt = .fail then (w.report h .fail (.sendFail h c), .ok w.now) else
+    ({ w with net := w.net ++ [Frame.data c.daddr c.idx h ⟨h, c.idx, c.ds, f, b⟩] }.emit (.sent h c b f),
+     if flt = .closeExc then .exc else .ok w.now)
 
-/-- `store_payload(payload)` on host `h`. -/
-def execStore (h : Nat) (p : Payload) (w : World) : World :=
-  match lookup (w.hosts h).store p.ds with
-  | some _ => w.emit (.redundant h p.ds p.confirmIdx)
-  | none =>
-    ((w.setHost h { w.hosts h with store := (w.hosts h).store ++ [(p.ds, p.value, p.deser)] }).emit
-      (.stored h p.ds p.confirmIdx p.value p.deser)).emit (.announced h p.ds p.confirmIdx)
+/-- one stage of `store_payload(payload)` on host `h`. Second component: `some n` = the job goes on
+at stage `n`, `none` = the job returns. -/
+def storeStep (h : Nat) (p : Payload) (st : Nat) (flt : Fault) (w : World) : World × Option Nat :=
+  let hs := w.hosts h
+  match st with
+  | 0 =>
+    if flt = .fail then (w.report h .fail (.storeFail h p.ds p.confirmIdx 0), none)
+    else if (lookup hs.store p.ds).isSome ∨ p.ds ∈ hs.allocd then (w.emit (.redundant h p.ds p.confirmIdx), none)
+    else (w.setHost h { hs with allocd := hs.allocd ++ [p.ds] }, some 1)
+  | 1 =>
+    if flt = .fail then (w.report h .fail (.storeFail h p.ds p.confirmIdx 1), none)
+    else ((w.setHost h { hs with allocd := hs.allocd.filter (fun d => d ≠ p.ds),
+                                 store := hs.store ++ [(p.ds, p.value, p.deser)] }).emit
+            (.stored h p.ds p.confirmIdx p.value p.deser), some 2)
+  | _ =>
+    if flt = .fail then (w.report h .fail (.storeFail h p.ds p.confirmIdx 2), none)
+    else (w.report h (.pub p.ds p.confirmIdx) (.announced h p.ds p.confirmIdx), none)
 
-def execKey (h : Nat) : Key → World → World
-  | .cmd c => execSend h c
-  | .pay p => execStore h p
+def World.setFut (w : World) (h i : Nat) (f : Fut) : World :=
+  w.setHost h { w.hosts h with futs := (w.hosts h).futs.set i f }
 
-def setResult : List Fut → Nat → Nat → List Fut
-  | [], _, _ => []
-  | f :: fs, 0, t => { f with result := some t } :: fs
-  | f :: fs, i + 1, t => f :: setResult fs i t
-
-/-- a pool thread runs the job of the `i`-th entry of `futs_in_progress` (if still pending). -/
-def runAt (h i : Nat) (w : World) : World :=
+/-- a pool thread advances the job of the `i`-th entry of `futs_in_progress` by one stage. -/
+def stepAt (h i : Nat) (flt : Fault) (w : World) : World :=
   if (w.hosts h).crashed then w else
   match (w.hosts h).futs[i]? with
-  | some ⟨key, none⟩ =>
-    let w1 := execKey h key w
-    w1.setHost h { w1.hosts h with futs := setResult (w1.hosts h).futs i w.now }
+  | some ⟨.cmd c, st, none⟩ =>
+    if st = 0 then
+      let r := sendOpen h c flt w
+      r.1.setFut h i ⟨.cmd c, if r.2 then 1 else 0, if r.2 then none else some (.ok w.now)⟩
+    else
+      let r := sendData h c flt w
+      r.1.setFut h i ⟨.cmd c, st, some r.2⟩
+  | some ⟨.pay p, st, none⟩ =>
+    let r := storeStep h p st flt w
+    r.1.setFut h i ⟨.pay p, r.2.getD st, if r.2.isSome then none else some (.ok w.now)⟩
   | _ => w
+
+/-- the job of entry `i` run to its end without faults (at most three stages). -/
+def runAt (h i : Nat) (w : World) : World :=
+  stepAt h i .none (stepAt h i .none (stepAt h i .none w))
 
 /-! ### maybe_clean -/
 
 /-- one pass of `maybe_clean` over the keys: done futures are popped, a finished send stamps
-`awaiting_confirmation`. Returns (awaiting', remaining futures). -/
+`awaiting_confirmation`, a future that raised stamps nothing. Returns (awaiting', remaining futures). -/
 def cleanList : List Fut → List (Nat × Cmd × Option Nat) → List (Nat × Cmd × Option Nat) × List Fut
   | [], aw => (aw, [])
   | f :: fs, aw =>
     match f.result with
     | none => let r := cleanList fs aw; (r.1, f :: r.2)
-    | some t =>
+    | some .exc => cleanList fs aw
+    | some (.ok t) =>
       match f.key with
       | .cmd c => cleanList fs (setA aw c.idx (c, some t))
       | .pay _ => cleanList fs aw
 
+/-- the futures that raised, in order: each is reported with DatasetTransmitFailure -/
+def cleanFails (fs : List Fut) : List Key := (fs.filter (fun f => f.result = some .exc)).map (·.key)
+
 def cleanAll (h : Nat) (w : World) : World :=
   if (w.hosts h).crashed then w else
-  let r := cleanList (w.hosts h).futs (w.hosts h).awaiting
-  w.setHost h { w.hosts h with awaiting := r.1, futs := r.2 }
+  let hs := w.hosts h
+  let r := cleanList hs.futs hs.awaiting
+  let fl := cleanFails hs.futs
+  { w.setHost h { hs with awaiting := r.1, futs := r.2, mbox := hs.mbox ++ fl.map (fun _ => EMsg.fail) } with
+    log := (fl.map (Event.futFail h)).reverse ++ w.log }
 
 /-! ### network and listener -/
 
@@ -205,8 +287,8 @@ def deliver (i : Nat) (dup : Bool) (w : World) : World :=
 
 def dropFrame (i : Nat) (w : World) : World := { w with net := w.net.eraseIdx i }
 
-/-- the controller (or the local executor) hands a command / purge to host `h`; a command index
-is used once. -/
+/-- the controller (or the local executor) hands a command / purge to the data server of host `h`;
+a command index is used once. -/
 def inject (h : Nat) (m : Msg) (w : World) : World :=
   match m with
   | .cmd c =>
@@ -244,15 +326,14 @@ def inProgress (futs : List Fut) (ds : Nat) : Nat := (futs.filter (fun f => f.ke
 
 def hasKey (futs : List Fut) (k : Key) : Bool := futs.any (fun f => f.key = k)
 
-/-- the body of the purge branch after the wait: drop pending confirmations, purge shm, mark invalid. -/
+/-- the body of the purge branch after the wait: drop pending confirmations, ask shm to purge (an
+unknown key is NOT an error: the Manager logs the KeyError and the server answers Ok), mark invalid. -/
 def purgeAct (h ds : Nat) (w : World) : World :=
   let hs := w.hosts h
   let aw := hs.awaiting.filter (fun e => e.2.1.ds ≠ ds)
-  match lookup hs.store ds with
-  | none => (w.setHost h { hs with awaiting := aw }).crash h 4
-  | some _ =>
-    (w.setHost h { hs with awaiting := aw, store := eraseA hs.store ds, invalid := insertS hs.invalid ds }).emit
-      (.purged h ds (inProgress hs.futs ds))
+  (w.setHost h { hs with awaiting := aw, store := eraseA hs.store ds, allocd := hs.allocd.filter (fun d => d ≠ ds),
+                         invalid := insertS hs.invalid ds }).emit
+    (.purged h ds (inProgress hs.futs ds))
 
 /-- handle one message (already popped from the inbox). -/
 def handleMsg (h : Nat) (m : Msg) (w : World) : World :=
@@ -262,10 +343,10 @@ def handleMsg (h : Nat) (m : Msg) (w : World) : World :=
     if (lookup hs.awaiting c.idx).isSome then w.crash h 1
     else if c.ds ∈ hs.invalid then w.crash h 2
     else (w.setHost h { hs with awaiting := setA hs.awaiting c.idx (c, none),
-                                futs := hs.futs ++ [⟨.cmd c, none⟩] }).emit (.submitted h c.idx c.ds)
+                                futs := hs.futs ++ [⟨.cmd c, 0, none⟩] }).emit (.submitted h c.idx c.ds)
   | .pay p =>
     if p.ds ∈ hs.invalid then w.emit (.ignored h p.ds p.confirmIdx)
-    else w.setHost h { hs with futs := hs.futs ++ [⟨.pay p, none⟩] }
+    else w.setHost h { hs with futs := hs.futs ++ [⟨.pay p, 0, none⟩] }
   | .ack i => (w.setHost h { hs with acks := insertS hs.acks i }).emit (.ackRecv h i)
   | .purge ds => purgeAct h ds w
 
@@ -287,28 +368,52 @@ def retryOne (h e : Nat) (w : World) : World :=
     if hasKey hs.futs (.cmd c) then w.crash h 3
     else if c.idx ∈ hs.acks then w.setHost h { hs with awaiting := eraseA hs.awaiting e }
     else if c.ds ∈ hs.invalid then w.setHost h { hs with awaiting := eraseA hs.awaiting e }
-    else (w.setHost h { hs with futs := hs.futs ++ [⟨.cmd c, none⟩],
+    else (w.setHost h { hs with futs := hs.futs ++ [⟨.cmd c, 0, none⟩],
                                 awaiting := setA hs.awaiting e (c, none) }).emit (.resubmit h c.idx c.ds)
 
 def advance (d : Nat) (w : World) : World := { w with now := w.now + d }
 
-/-! ### the transition relation: any interleaving of main thread, pool threads, network -/
+/-! ### the executor between controller and data server (`Executor.recv_loop`) -/
+
+/-- the controller's DatasetPurge arrives on the executor's message socket -/
+def injectE (h ds : Nat) (w : World) : World :=
+  w.setHost h { w.hosts h with mbox := (w.hosts h).mbox ++ [EMsg.purge ds] }
+
+/-- the executor handles the head of its message socket -/
+def execHandle (h : Nat) (w : World) : World :=
+  let hs := w.hosts h
+  match hs.mbox with
+  | [] => w
+  | .pub ds idx :: rest =>
+    (w.setHost h { hs with mbox := rest, published := insertS hs.published ds }).emit (.ctrlPub h ds idx)
+  | .fail :: rest => (w.setHost h { hs with mbox := rest }).emit (.ctrlFail h)
+  | .purge ds :: rest =>
+    if ds ∈ hs.published then
+      (w.setHost h { hs with mbox := rest, published := hs.published.filter (fun d => d ≠ ds),
+                             sock := hs.sock ++ [Frame.plain h (Msg.purge ds)] }).emit (.purgeFwd h ds)
+    else (w.setHost h { hs with mbox := rest }).emit (.purgeDropped h ds)
+
+/-! ### the transition relation: any interleaving of main thread, pool threads, executor, network -/
 
 inductive MStep : World → World → Prop
   | clean (h : Nat) (w : World) : MStep w (cleanAll h w)
-  | run (h i : Nat) (w : World) : MStep w (runAt h i w)
+  | run (h i : Nat) (flt : Fault) (w : World) : MStep w (stepAt h i flt w)
   | deliver (i : Nat) (dup : Bool) (w : World) : MStep w (deliver i dup w)
   | drop (i : Nat) (w : World) : MStep w (dropFrame i w)
   | inject (h : Nat) (m : Msg) (w : World) : MStep w (inject h m w)
   | recv (h : Nat) (w : World) : MStep w (recvOne h w).1
   | ctrl (i : Nat) (dup : Bool) (w : World) : MStep w (ctrlRecv i dup w)
-  /-- a purge is handled only when no future of that dataset is in `futs_in_progress`
-  (the code waits for ALL futures and cleans them; `Aux.waitAll_clean_nil`). -/
+  /-- `wait(futs_in_progress.values(), ALL_COMPLETED)` is a blocking call: the purge branch goes on
+  only when it has returned.  The guard is the part of that which the invariants need (no future of
+  THAT dataset left); that the code establishes it — whatever the pool does, whatever stage the jobs
+  were at — is `Aux.handleAll_mstar` (`waitAll_done`, `mclean_nil`). -/
   | handle (h : Nat) (w : World)
       (guard : ∀ ds rest, (w.hosts h).inbox = .purge ds :: rest → inProgress (w.hosts h).futs ds = 0) :
       MStep w (handleHead h w)
   | retry (h e : Nat) (w : World) : MStep w (retryOne h e w)
   | advance (d : Nat) (w : World) : MStep w (advance d w)
+  | exec (h : Nat) (w : World) : MStep w (execHandle h w)
+  | injectE (h ds : Nat) (w : World) : MStep w (injectE h ds w)
 
 inductive MStar : World → World → Prop
   | refl (w : World) : MStar w w
@@ -326,13 +431,21 @@ def pendingIdx : List Fut → Nat → Option Nat
 
 def nPending (futs : List Fut) : Nat := (futs.filter (fun f => f.result.isNone)).length
 
-/-- run the pending job chosen by the scheduler oracle `c`. -/
+/-- run the pending job chosen by the scheduler oracle `c` to its end. -/
 def runChoice (h c : Nat) (w : World) : World :=
   let n := nPending (w.hosts h).futs
   if n = 0 then w else
   match pendingIdx (w.hosts h).futs (c % n) with
   | none => w
   | some i => runAt h i w
+
+/-- advance the pending job chosen by `c` by one stage, under fault `flt`. -/
+def stepChoice (h c : Nat) (flt : Fault) (w : World) : World :=
+  let n := nPending (w.hosts h).futs
+  if n = 0 then w else
+  match pendingIdx (w.hosts h).futs (c % n) with
+  | none => w
+  | some i => stepAt h i flt w
 
 /-- `wait(futs, ALL_COMPLETED)`: the pool runs every pending job, in the order given by `sched`. -/
 def waitAll (h : Nat) : Nat → List Nat → World → World × List Nat
@@ -410,9 +523,25 @@ def tick (h : Nat) (inputs : List Input) (sched : List Nat) (w : World) : World 
   let w0 := feed h inputs w
   if (w0.hosts h).crashed then w0 else tickRest h (mclean h sched w0)
 
+def execAll (h : Nat) : Nat → World → World
+  | 0, w => w
+  | fuel + 1, w => execAll h fuel (execHandle h w)
+
+def feedE (h : Nat) : List Nat → World → World
+  | [], w => w
+  | ds :: ps, w => feedE h ps (injectE h ds w)
+
+/-- one iteration of `Executor.recv_loop` of host `h` after the controller's `purges` arrived: every
+message on the socket is handled. -/
+def etick (h : Nat) (purges : List Nat) (w : World) : World :=
+  let w0 := feedE h purges w
+  execAll h (w0.hosts h).mbox.length w0
+
 inductive Op
   | tick (h : Nat) (inputs : List Input) (sched : List Nat)
   | job (h c : Nat)
+  | jobstep (h c : Nat) (flt : Fault)
+  | etick (h : Nat) (purges : List Nat)
   | adv (d : Nat)
   | drop (i : Nat)
   | ctrl (i : Nat) (dup : Bool)
@@ -421,6 +550,8 @@ deriving Repr
 def step (w : World) : Op → World
   | .tick h ins sched => tick h ins sched w
   | .job h c => runChoice h c w
+  | .jobstep h c flt => stepChoice h c flt w
+  | .etick h ps => etick h ps w
   | .adv d => advance d w
   | .drop i => dropFrame i w
   | .ctrl i dup => ctrlRecv i dup w
@@ -434,6 +565,13 @@ def storedCnt (log : List Event) (h ds : Nat) : Nat :=
 
 def annCnt (log : List Event) (h ds : Nat) : Nat :=
   log.countP (fun e => match e with | .announced h' ds' _ => h' = h ∧ ds' = ds | _ => false)
+
+/-- failure reports of `store_payload` raised AFTER the copy was written and closed (announce stage) -/
+def annFailCnt (log : List Event) (h ds : Nat) : Nat :=
+  log.countP (fun e => match e with | .storeFail h' ds' _ st => h' = h ∧ ds' = ds ∧ 2 ≤ st | _ => false)
+
+def ctrlPubCnt (log : List Event) (h ds : Nat) : Nat :=
+  log.countP (fun e => match e with | .ctrlPub h' ds' _ => h' = h ∧ ds' = ds | _ => false)
 
 def resubmitCnt (log : List Event) (h idx : Nat) : Nat :=
   log.countP (fun e => match e with | .resubmit h' i' _ => h' = h ∧ i' = idx | _ => false)
@@ -450,5 +588,45 @@ def sentDsCnt (log : List Event) (h ds : Nat) : Nat :=
 
 def copies (store : List (Nat × String × String)) (ds : Nat) : Nat :=
   (store.filter (fun e => e.1 = ds)).length
+
+/-- unfinished store job of `ds` between allocate and close -/
+def atStage1 (ds : Nat) (f : Fut) : Bool :=
+  match f.key, f.result with
+  | .pay p, none => decide (p.ds = ds ∧ f.stage = 1)
+  | _, _ => false
+
+/-- unfinished store job of `ds` between close and the announce callback -/
+def atStage2 (ds : Nat) (f : Fut) : Bool :=
+  match f.key, f.result with
+  | .pay p, none => decide (p.ds = ds ∧ 2 ≤ f.stage)
+  | _, _ => false
+
+/-- DatasetTransmitFailure raised by the data server of `h` (by a send job, a store job, or `maybe_clean`) -/
+def failCnt (log : List Event) (h : Nat) : Nat :=
+  log.countP (fun e => match e with
+    | .sendFail h' _ => h' = h
+    | .storeFail h' _ _ _ => h' = h
+    | .futFail h' _ => h' = h
+    | _ => false)
+
+/-- DatasetTransmitFailure the executor of `h` passed on to the controller -/
+def ctrlFailCnt (log : List Event) (h : Nat) : Nat :=
+  log.countP (fun e => match e with | .ctrlFail h' => h' = h | _ => false)
+
+/-- failure reports on their way from the data server to the executor -/
+def failPending (mbox : List EMsg) : Nat :=
+  mbox.countP (fun m => match m with | .fail => true | _ => false)
+
+/-- the latest thing the executor of `h` did about `ds` (log is newest first): `some true` = told the
+controller it is there, `some false` = forwarded its purge -/
+def lastEx : List Event → Nat → Nat → Option Bool
+  | [], _, _ => none
+  | .ctrlPub h' d _ :: l, h, ds => if h' = h ∧ d = ds then some true else lastEx l h ds
+  | .purgeFwd h' d :: l, h, ds => if h' = h ∧ d = ds then some false else lastEx l h ds
+  | _ :: l, h, ds => lastEx l h ds
+
+/-- `DatasetPublished` of `ds` on their way from the data server to the executor -/
+def pubPending (mbox : List EMsg) (ds : Nat) : Nat :=
+  mbox.countP (fun m => match m with | .pub d _ => d = ds | _ => false)
 
 end EkwVerif.Transfer
